@@ -119,7 +119,8 @@ def judge(ctx, r, reply, case, site, opts, conc):
             ctx.fail('missing-url', where, case, 'in scope but never requested (%s): %s' % (
                 {'plain': 'its stored record is in scope or it was never stored although its parents were handled with their best record',
                  'depth-race': 'stored, or its parent stored, with the depth of a longer path: first record wins',
-                 'requisite-shadowed': 'stored, or its parent stored, as an ordinary link although it is also a page requisite: first record wins'}[where], us))
+                 'requisite-shadowed': 'stored, or its parent stored, as an ordinary link although it is also a page requisite: first record wins',
+                 'type-shadowed': 'its parent is an HTML page stored under a media / css / javascript link-type hint (it is also referenced from CSS url(), <script src> or a stylesheet link): fetched, never scraped; first record wins'}[where], us))
     if extra:
         ctx.fail('extra-request', 'crawl', case, 'requested although not reachable in scope: %s' % sorted(extra))
 
